@@ -57,9 +57,21 @@ def _parse_shebang_language(line: str) -> str | None:
     """Parse language from shebang line."""
     if not line.startswith("#!"):
         return None
-    if "python" in line:
+    if _shebang_interpreter(line).startswith("python"):
         return "python"
     return None
+
+
+def _shebang_interpreter(line: str) -> str:
+    """Name of the program a shebang line runs ("" if none); `env` and its options are skipped."""
+    words = line[2:].split()
+    if not words:
+        return ""
+    program = words[0].rsplit("/", 1)[-1]
+    if program != "env":
+        return program
+    arguments = [word for word in words[1:] if not word.startswith("-") and "=" not in word]
+    return arguments[0].rsplit("/", 1)[-1] if arguments else ""
 
 
 def detect_language(file_path: Path) -> str:
